@@ -198,6 +198,35 @@ func (r *v12Run) step(id int, step map[string]interface{}) v12Event {
 					obs.Err = "refused"
 				}
 			}
+		case "Restore":
+			// what fsm.go Snapshot + Restore + finishedRecovery do with a group:
+			// members (with their streams), coordinator and epoch are written
+			// out in map order and the group is rebuilt from them
+			v := vStr(step, "srv")
+			args["srv"] = v
+			obs.Srv = v
+			g := r.groups[v]
+			if g == nil || len(r.pend[v]) > 0 {
+				obs.A, a = "Skip", "Skip"
+				return
+			}
+			coord, epoch := g.GetCoordinator()
+			pg := &proto.ConsumerGroup{Id: "g", Coordinator: coord, Epoch: epoch}
+			order := []string{}
+			for id, streams := range g.GetMembers() {
+				pg.Members = append(pg.Members, &proto.Consumer{Id: id, Streams: streams})
+				order = append(order, id)
+			}
+			args["order"] = order
+			g.Close()
+			srv := v
+			ng := newConsumerGroup(v, time.Hour, pg, true, r.log,
+				func(groupID, consumerID string) error {
+					r.expired = append(r.expired, srv+":"+consumerID)
+					return nil
+				}, r.countPartitions)
+			ng.StartRecovered()
+			r.groups[v] = ng
 		case "GetAssignments":
 			v, c, d := vStr(step, "srv"), vStr(step, "c"), uint64(vInt(step, "d"))
 			obs.Srv = v
